@@ -31,7 +31,7 @@ pub fn generate(seed: u64, run: u64, _tier: Tier, st: &mut Stats) -> StreamCase 
     let b = build(
         &mut rw,
         &mut rf,
-        &BuildOpts { max_records, confine: Confine::Payload, clean_pct: 100, foreign_pct: 0, storage: None, stats_swarm: true, soup_pct: 0, wide_records: if wide { 700 } else { 0 } },
+        &BuildOpts { max_records, confine: Confine::Payload, clean_pct: 100, foreign_pct: 4, storage: None, stats_swarm: true, soup_pct: 0, wide_records: if wide { 700 } else { 0 } },
         st,
     );
     let mut medium = b.medium.bytes.clone();
